@@ -1,5 +1,6 @@
 /-
-  Helper lemmas for the C17 source tie: strided slice stores (`e[0::2] = …`), reversal, element-wise width conversion.
+  Helper lemmas for the C17 source tie: strided slice stores (`e[0::2] = …`), reversal, element-wise width conversion,
+  `np.vstack((…)).T`.
 -/
 import TaurexModel.Gen.Prelude
 import TaurexModel.Observation
@@ -56,6 +57,22 @@ theorem setStride_interleave (z : β) (f g : γ → β) (l : List γ) :
 
 theorem take_reverse (d : β) (l : List β) (idx : List Nat) : take d l idx.reverse = (take d l idx).reverse := by
   simp [take]
+
+theorem zipWith_map_map {δ ε : Type} (f : γ → δ → ε) (g : β → γ) (h : β → δ) (l : List β) :
+    List.zipWith f (l.map g) (l.map h) = l.map (fun x => f (g x) (h x)) := by
+  induction l with
+  | nil => rfl
+  | cons x t ih => simp only [List.map_cons, List.zipWith_cons_cons, ih]
+
+/-- `np.vstack((l.map f, l.map g₁, …)).T`: row `i` of the transposed array holds `f lᵢ, g₁ lᵢ, …` -/
+theorem transpose_maps (d : β) (f : γ → β) (fs : List (γ → β)) (l : List γ) :
+    transpose d ((f :: fs).map (fun g => l.map g)) = l.map (fun r => (f :: fs).map (fun g => g r)) := by
+  apply List.ext_getElem
+  · simp [transpose]
+  · intro i h1 h2
+    simp only [transpose, List.map_cons, List.headD_cons, List.length_map] at h1 ⊢
+    have hi : i < l.length := by simpa using h1
+    simp [List.getD_eq_getElem?_getD, List.getElem?_eq_getElem hi]
 
 end
 end Taurex.Gen.Np
